@@ -284,49 +284,43 @@ func (o *OperandPegImpl) CalcOffsetByteSize() int {
 		}
 		memInfo := memOperand.Memory // 見つかったオペランドから MemoryInfo を取得
 
-		// アドレスサイズプレフィックス(67h)が必要かどうかにかかわらず、
-		// ディスプレースメントが存在すればその値に基づいてサイズを計算する。
-		// プレフィックスの有無はディスプレースメント自体のサイズには影響しない。
+		// ディスプレースメントの幅はアドレス幅で決まり、アドレス幅は使われているレジスタで決まる
+		// (レジスタが無ければモードの既定)。codegen の calculateModRM と同じ規則。
+		addr16 := o.usesAddr16(memInfo)
 
-		// プレフィックス不要の場合 (コメントは残すが、ロジックは共通化)
-		// 1. 直接アドレス指定 [disp] (ModRM mode 00, rm 110 for 16bit or 101 for 32bit)
+		// 1. 直接アドレス指定 [disp] (ModRM mod 00, rm 110 for 16bit or 101 for 32bit)
 		if memInfo.BaseReg == "" && memInfo.IndexReg == "" {
-			// 直接アドレスの場合、ディスプレースメントサイズはビットモードに依存
-			if o.bitMode == cpu.MODE_16BIT {
+			if addr16 {
 				return 2 // disp16
 			}
 			return 4 // disp32
 		}
 
-		// 2. 間接アドレス指定 ([reg+disp], [reg+reg*scale+disp] など)
-		// ディスプレースメントがない場合は 0 バイト (ただし16bitの[BP]は例外)
+		// 2. ベース無しのインデックス [index*scale+disp] は値に関係なく disp32 (SIB base=101, mod=00)
+		if !addr16 && memInfo.BaseReg == "" {
+			return 4
+		}
+
+		// 3. ディスプレースメントが無い場合は 0 バイト。ただし [BP] と [EBP(+index)] は mod=00 で表せないので disp8=0 が付く
 		if memInfo.Displacement == 0 {
-			// Special case: [BP] in 16-bit mode uses ModRM mode 01 with disp8=0.
-			if o.bitMode == cpu.MODE_16BIT && memInfo.BaseReg == "BP" && memInfo.IndexReg == "" {
-				return 1 // disp8=0 for [BP]
+			if addr16 && memInfo.BaseReg == "BP" && memInfo.IndexReg == "" {
+				return 1
 			}
-			// Other cases like [BX], [SI], [BX+SI] etc. need no offset bytes with ModRM mode 00.
+			if !addr16 && memInfo.BaseReg == "EBP" {
+				return 1
+			}
 			return 0
 		}
 
-		// ディスプレースメントがある場合
+		// 4. ディスプレースメントがある場合: disp8 か、アドレス幅の disp16/disp32
 		disp := memInfo.Displacement
-		// ModRM mode 01 (disp8) or 10 (disp16/32)
-		// 8ビットに収まるかチェック
 		if disp >= -128 && disp <= 127 {
-			// TODO: ModRM mode 00 で disp8 が使えないケース ([BP]以外) を考慮する必要があるかもしれないが、
-			//       現状は単純に8ビットに収まれば disp8 (1 byte) とする。
-			//       (例: [BX+disp8] は mode 01 を使う)
-			return 1 // disp8
+			return 1
 		}
-
-		// 8ビットに収まらない場合、ビットモードに応じて disp16 または disp32
-		if o.bitMode == cpu.MODE_16BIT {
-			// 16ビットモードでは、16ビットディスプレースメントを使用
-			return 2 // disp16
+		if addr16 {
+			return 2
 		}
-		// 32ビットモードでは、32ビットディスプレースメントを使用
-		return 4 // disp32
+		return 4
 
 	}
 	return 0 // メモリオペランドが見つかりません
@@ -519,17 +513,26 @@ func (o *OperandPegImpl) IsType(index int, targetType OperandType) bool {
 // CalcSibByteSize は、SIB バイトが必要な場合に 1 を、不要な場合に 0 を返します。
 func (o *OperandPegImpl) CalcSibByteSize() int {
 	memInfo, found := o.GetMemoryInfo()
-	// 32ビットモードでメモリオペランドがある場合のみ SIB の可能性を考慮
-	if found && memInfo != nil && o.GetBitMode() == cpu.MODE_32BIT {
-		// ModR/M rm=100 になる条件をチェック (calculateModRM のロジックを参考)
-		isDirectAddr := memInfo.BaseReg == "" && memInfo.IndexReg == ""
-		isEBPBasedNoIndex := memInfo.BaseReg == "EBP" && memInfo.IndexReg == ""
-
-		// 直接アドレス ([disp32]) や [EBP+disp] 形式 (rm=101) ではなく、
-		// かつ ベースが ESP または インデックスが存在する場合に SIB が必要
-		if !isDirectAddr && !isEBPBasedNoIndex && (memInfo.BaseReg == "ESP" || memInfo.IndexReg != "") {
+	// 32 ビットアドレッシング (モードではなく、使われているレジスタで決まる) のときだけ SIB があり得る
+	if found && memInfo != nil && !o.usesAddr16(memInfo) {
+		// ModR/M rm=100 になる条件: ベースが ESP、またはインデックスがある (calculateModRM と同じ)
+		if memInfo.BaseReg == "ESP" || memInfo.IndexReg != "" {
 			return 1 // SIB バイトが必要
 		}
 	}
 	return 0 // SIB バイトは不要
+}
+
+// usesAddr16 は、メモリオペランドが 16 ビットアドレッシングでエンコードされるかどうかを返します。
+// 16 ビットのアドレスレジスタがあれば 16、32 ビットのレジスタがあれば 32、無ければモードの既定です。
+func (o *OperandPegImpl) usesAddr16(mem *MemoryInfo) bool {
+	for _, r := range []string{mem.BaseReg, mem.IndexReg} {
+		switch r {
+		case "BX", "BP", "SI", "DI":
+			return true
+		case "EAX", "ECX", "EDX", "EBX", "ESP", "EBP", "ESI", "EDI":
+			return false
+		}
+	}
+	return o.bitMode == cpu.MODE_16BIT
 }
